@@ -1,7 +1,9 @@
 package token
 
 import (
+	"encoding/base64"
 	"slices"
+	"strings"
 	"time"
 
 	"github.com/go-jose/go-jose/v4/jwt"
@@ -53,6 +55,14 @@ func validClaims(
 	parsedToken, err := jwt.ParseSigned(token, algs)
 	if err != nil {
 		// If the token is not a valid JWT, we'll treat it as an opaque token.
+		return nil, goidc.WrapError(goidc.ErrorCodeInvalidRequest,
+			"could not parse the token", err)
+	}
+
+	// The signature must be canonically encoded. Otherwise, strings that differ
+	// from the token only in the unused bits of its last character are accepted.
+	sig := token[strings.LastIndex(token, ".")+1:]
+	if _, err := base64.RawURLEncoding.Strict().DecodeString(sig); err != nil {
 		return nil, goidc.WrapError(goidc.ErrorCodeInvalidRequest,
 			"could not parse the token", err)
 	}
